@@ -100,7 +100,7 @@ pub struct DM {
 pub struct SplitFam;
 
 const ALPHA: &[&str] = &["a", "b", ",", "é", "€", "😀", "aa", "ab", "a", ",", "ᄀ", "à"];
-const DELIMS: &[&str] = &["", "a", "aa", "ab", "aab", ",", ",,", "é", "€a", "aba", "abab", "b", "😀", ",a,", "aaa"];
+const DELIMS: &[&str] = &["", "a", "aa", "ab", "aab", ",", ",,", "é", "€a", "aba", "abab", "b", "😀", ",a,", "aaa", "abaab", "aabaa", "ééa", "€€", "a😀a", "<--"];
 const DELIM_CHARS: &[char] = &['a', ',', '€', 'é', '😀', 'b'];
 
 fn std_pieces(text: &str, delim: &str, kind: DKind) -> Vec<(usize, usize)> {
@@ -141,6 +141,13 @@ impl Fam for SplitFam {
         let n = if rng.chance(1, 10) { rng.range(0, 1) } else { rng.range(0, maxlen) };
         let mut text = String::new();
         let mut count = 0;
+        if !ds.is_empty() && rng.chance(1, 12) {
+            // nothing but delimiters (the remainder equals the delimiter at some step)
+            for _ in 0..rng.range(1, 3) {
+                text.push_str(&ds);
+            }
+            count = n;
+        }
         // assembled from tokens so that delimiters occur, touch, lead, trail and overlap
         let w_delim = *rng.pick(&[1u64, 2, 4]);
         while count < n {
